@@ -27,6 +27,11 @@ pub struct C11Case {
     /// counters. The schedule is not owned; the oracle does not depend on it.
     #[serde(default)]
     pub threads: bool,
+    /// instead of the long history: a short fine-grained schedule (several handle clones, requests
+    /// refused for quota or size, futures polled late, cancellations), judged by the session
+    /// model's identifier invariant
+    #[serde(default)]
+    pub history: Option<crate::sim::Scenario>,
 }
 
 pub struct C11;
@@ -57,18 +62,46 @@ impl Property for C11 {
                 0..40,
             ),
         )
-            .prop_map(|(total, handles, salt, keep)| C11Case { total, handles, salt, keep, threads: false })
+            .prop_map(|(total, handles, salt, keep)| C11Case { total, handles, salt, keep, threads: false, history: None })
             .boxed();
-        (s, prop::bool::weighted(0.25))
+        let long = (s, prop::bool::weighted(0.25))
             .prop_map(|(mut c, t)| {
                 c.threads = t;
                 c
             })
-            .boxed()
+            .boxed();
+        // fine-grained schedules: identifiers are allocated at the first poll of an operation's
+        // future, refusals are seen at a later poll, other clones allocate in between
+        use super::simprops::{ack, deco, rm_small, sel, start};
+        use crate::sim::{Ev, OpKind, Scenario};
+        let ev = prop_oneof![
+            6 => start(vec![(3, OpKind::Pub1), (3, OpKind::Pub2), (2, OpKind::Sub(0)), (2, OpKind::Unsub(0)), (1, OpKind::Pub0), (1, OpKind::Ping)]),
+            1 => Just(Ev::CloneHandle),
+            5 => Just(Ev::PollCtx),
+            6 => sel().prop_map(|sel| Ev::PollOp { sel }),
+            4 => ack(deco()),
+            1 => sel().prop_map(|sel| Ev::DropOp { sel }),
+            1 => Just(Ev::Settle),
+        ];
+        let hist = (
+            rm_small(),
+            prop_oneof![3 => Just(None), 1 => (18u32..42).prop_map(Some)],
+            proptest::collection::vec(ev, 1..tier.pick(60, 150)),
+            prop_oneof![6 => Just(0u32), 2 => 250u32..300, 1 => prop::sample::select(vec![65_280u32, 65_500, 65_530])],
+            prologue_variant_no_inbound(),
+        )
+            .prop_map(|(receive_max, max_packet_size, mut events, id_offset, prologue): (Option<u16>, Option<u32>, Vec<Ev>, u32, u8)| {
+                // several clones from the outset
+                events.insert(0, Ev::CloneHandle);
+                events.insert(0, Ev::CloneHandle);
+                C11Case { total: 0, handles: 0, salt: 0, keep: vec![], threads: false, history: Some(Scenario { receive_max, max_packet_size, id_offset, prologue, events }) }
+            });
+        prop_oneof![1 => long, 400 => hist].boxed()
     }
 
     fn cases(tier: Tier) -> u32 {
-        tier.pick(16, 200)
+        // about 1 in 400 cases is a long history (66 000 - 140 000 operations)
+        tier.pick(6400, 80_000)
     }
 
     fn max_shrink_iters() -> u32 {
@@ -83,6 +116,24 @@ impl Property for C11 {
     }
 
     fn run(case: &C11Case) -> Outcome {
+        if let Some(h) = &case.history {
+            let pressure = case_hash(case) % 4 == 0;
+            let cfg = crate::sim::SimCfg {
+                auto_settle: false,
+                write: if pressure { WritePlan { per_call: 2, stall: Some(3) } } else { WritePlan::default() },
+                ..Default::default()
+            };
+            let out = crate::sim::run(h, &cfg);
+            let mut o = Outcome::ok();
+            o.class("fine-grained-schedule");
+            let refused = out.stats.quota_exhausted + out.stats.refused_for_size;
+            if refused > 0 {
+                o.class("schedule-with-refused-requests");
+            }
+            o.nontrivial = out.stats.max_outstanding_ops >= 2 && refused >= 1;
+            o.fail = super::simprops::failure_for(&out, &["C11/"]);
+            return o;
+        }
         if case.threads {
             return run_c11_threads(case);
         }
@@ -522,7 +573,7 @@ impl Property for C12 {
             8 => start(vec![(1, OpKind::Pub0), (2, OpKind::Pub1), (2, OpKind::Pub2), (4, OpKind::Sub(0)), (3, OpKind::Unsub(0)), (1, OpKind::Ping)]),
             5 => ack(deco()),
         ];
-        let hist = (rm_small(), 12u32..44, proptest::collection::vec(ev, 1..40), prop_oneof![3 => Just(0u32), 1 => 250u32..300], prologue_variant())
+        let hist = (rm_small(), 12u32..44, proptest::collection::vec(ev, 1..40), prop_oneof![3 => Just(0u32), 1 => 250u32..300], prologue_variant_no_inbound())
             .prop_map(|(receive_max, m, events, id_offset, prologue): (Option<u16>, u32, Vec<Ev>, u32, u8)| C12Case {
                 op: OpSpec::Ping,
                 m: MChoice::Absent,
